@@ -13,12 +13,16 @@
    A disagreement is code 2 (known finding C02-K1) only when, at that offset, one of the two
    entries is an acknowledged entry that an Install matching the C01-K1 signature dropped
    (held by fewer than WriteQuorum of the voters that answered that Install's probe) — the
-   deposed leader checkpointed it; any other disagreement is code 1. *)
+   deposed leader checkpointed it; code 3 (C02-K2, the C01-K2 analogue) when instead one of the two
+   is an acknowledged entry dropped by an Install matching the C01-K2 signature (>= WriteQuorum holders
+   answered the frontier round, fewer than WriteQuorum holders answered every identity page, and the
+   post-page guard of recoverQuorumPrefix holds on the observed pre-install states: see Monitor_C01.v);
+   any other disagreement is code 1. *)
 From WK Require Import Base.Base.
 From WK Require Export Model.ReplicaLog Model.QuorumLog Model.Cluster.
 Open Scope N_scope.
 
-Record c02_state := C02State { cb_acked : list (N * N); cb_down : list N; cb_k1 : list (N * N) }.
+Record c02_state := C02State { cb_acked : list (N * N); cb_down : list N; cb_k1 : list (N * N); cb_k2 : list (N * N) }.
 
 Fixpoint acked_at2 (l : list (N * N)) (idx : N) : option N :=
   match l with
@@ -41,37 +45,45 @@ Definition c02_track (cfg : qconfig) (st : c02_state) (prev : list (N * robs))
       let leader := get_robs full node in
       let new := map (fun i => (i, obs_id_at leader i)) (seqN first (N.to_nat (last + 1 - first))) in
       C02State (filter (fun p => match acked_at2 (cb_acked st) (fst p) with Some _ => false | None => true end) new
-                ++ cb_acked st) (cb_down st) (cb_k1 st)
+                ++ cb_acked st) (cb_down st) (cb_k1 st) (cb_k2 st)
   | OInstall node _ _ _ f, RInstalled _ _ _ =>
       let lost := filter (fun p => negb (holds2 full node p)) (cb_acked st) in
-      let responders := node :: filter (fun w => negb (w =? node) && negb (memN w (cb_down st)) &&
-                                                 negb (memN w (fl_drop f))) vs in
-      let k1 := filter (fun p => countb2 (fun w => holds2 prev w p) responders <? cf_quorum cfg) lost in
-      C02State (filter (fun p => holds2 full node p) (cb_acked st)) (cb_down st) (k1 ++ cb_k1 st)
-  | ODown node, _ => C02State (cb_acked st) (node :: filter (fun v => negb (v =? node)) (cb_down st)) (cb_k1 st)
-  | OUp node, _ => C02State (cb_acked st) (filter (fun v => negb (v =? node)) (cb_down st)) (cb_k1 st)
+      let q := cf_quorum cfg in
+      let frontier := node :: filter (fun w => negb (w =? node) && negb (memN w (cb_down st)) &&
+                                               negb (memN w (fl_drop f))) vs in
+      let stable := filter (fun w => (w =? node) || negb (memN w (fl_pdrop f))) frontier in
+      let qth (sel : robs -> N) (ws : list N) := quorumFrontier (map (fun w => sel (get_robs prev w)) ws) q in
+      let guard := (q <=? lenN stable) && (qth ro_hw stable =? qth ro_hw frontier) &&
+                   (qth ro_leo stable =? qth ro_leo frontier) in
+      let k1p (p : N * N) := countb2 (fun w => holds2 prev w p) frontier <? q in
+      let k2p (p : N * N) := negb (k1p p) && guard && (countb2 (fun w => holds2 prev w p) stable <? q) in
+      C02State (filter (fun p => holds2 full node p) (cb_acked st)) (cb_down st)
+               (filter k1p lost ++ cb_k1 st) (filter k2p lost ++ cb_k2 st)
+  | ODown node, _ => C02State (cb_acked st) (node :: filter (fun v => negb (v =? node)) (cb_down st)) (cb_k1 st) (cb_k2 st)
+  | OUp node, _ => C02State (cb_acked st) (filter (fun v => negb (v =? node)) (cb_down st)) (cb_k1 st) (cb_k2 st)
   | _, _ => st
   end.
 
 (* code of the agreement clause for one pair of voters *)
-Fixpoint pair_agreement (k1 : list (N * N)) (a b : robs) (idx : N) (count : nat) : N :=
+Fixpoint pair_agreement (k1 k2 : list (N * N)) (a b : robs) (idx : N) (count : nat) : N :=
   match count with
   | O => 0
   | S c =>
       let x := obs_id_at a idx in let y := obs_id_at b idx in
       let here := if x =? y then 0
-                  else if existsb (fun p => (fst p =? idx) && ((snd p =? x) || (snd p =? y))) k1 then 2 else 1 in
-      worse2 here (pair_agreement k1 a b (idx + 1) c)
+                  else if existsb (fun p => (fst p =? idx) && ((snd p =? x) || (snd p =? y))) k1 then 2
+                  else if existsb (fun p => (fst p =? idx) && ((snd p =? x) || (snd p =? y))) k2 then 3 else 1 in
+      worse2 here (pair_agreement k1 k2 a b (idx + 1) c)
   end.
 
-Fixpoint all_pairs_agreement (k1 : list (N * N)) (os : list robs) : N :=
+Fixpoint all_pairs_agreement (k1 k2 : list (N * N)) (os : list robs) : N :=
   match os with
   | [] => 0
   | a :: rest =>
       worse2 (fold_left (fun acc b =>
                  if ro_err a || ro_err b then acc
-                 else worse2 acc (pair_agreement k1 a b 1 (N.to_nat (N.min (ro_hw a) (ro_hw b))))) rest 0)
-             (all_pairs_agreement k1 rest)
+                 else worse2 acc (pair_agreement k1 k2 a b 1 (N.to_nat (N.min (ro_hw a) (ro_hw b))))) rest 0)
+             (all_pairs_agreement k1 k2 rest)
   end.
 
 Definition c02_check (cfg : qconfig) (tab : list ent) (st : c02_state) (prev full : list (N * robs)) : N :=
@@ -81,7 +93,7 @@ Definition c02_check (cfg : qconfig) (tab : list ent) (st : c02_state) (prev ful
                negb (ro_err o) && obs_chain_ok tab o && (ro_hw o <=? ro_leo o) &&
                (ro_err o || ro_err o0 || (ro_hw o0 <=? ro_hw o))) vs in
   if negb local_ok then 1
-  else all_pairs_agreement (cb_k1 st) (map (get_robs full) vs).
+  else all_pairs_agreement (cb_k1 st) (cb_k2 st) (map (get_robs full) vs).
 
 Fixpoint c02_run (cfg : qconfig) (tab : list ent) (st : c02_state) (prev : list (N * robs))
          (steps : list (qop * qres * list (N * robs))) : N :=
@@ -93,7 +105,7 @@ Fixpoint c02_run (cfg : qconfig) (tab : list ent) (st : c02_state) (prev : list 
   end.
 
 Definition c02_code (cfg : qconfig) (tab : list ent) (steps : list (qop * qres * list (N * robs))) : N :=
-  c02_run cfg tab (C02State [] [] []) [] steps.
+  c02_run cfg tab (C02State [] [] [] []) [] steps.
 
 Definition C02_mismatch : qcase -> bool := q_mismatch.
 Definition C02_monitor (c : qcase) : N := c02_code (cs_cfg c) (cs_tab c) (expand_steps [] (cs_steps c)).
